@@ -14,6 +14,8 @@
 EXTENDS Naturals, Sequences, RefRead, Json, TLC
 
 Seqs == << <<206, 187>>,                \* valid 2-byte (lambda)
+           <<194, 163>>,                \* valid 2-byte with the smallest lead byte (pound sign)
+           <<194, 133>>,                \* U+0085 (a line ending in R6RS strings)
            <<228, 184, 173>>,           \* valid 3-byte
            <<240, 159, 152, 128>>,      \* valid 4-byte
            <<192, 128>>,                \* overlong 2-byte
@@ -44,7 +46,12 @@ Contexts == << << <<97>>, <<98>> >>,                                   \* inside
                << <<SEMI, 99>>, <<LF, 120>> >>,                        \* inside a comment
                << <<LP, 97, SP>>, <<RP>> >>,                           \* a list element
                << <<HASH, COLON>>, <<>> >>,                            \* keyword name
-               << <<DQ>>, <<>> >> >>                                   \* unterminated string
+               << <<DQ>>, <<>> >>,                                     \* unterminated string
+               << <<DQ, 97, BSL>>, <<100, DQ>> >>,                     \* directly after a backslash inside a string
+               << <<DQ, BSL, CR>>, <<53, DQ>> >>,                      \* after a backslash and a bare CR (line continuation)
+               << <<DQ, BSL, LF, SP>>, <<DQ>> >>,                      \* after a backslash, LF and a blank
+               << <<QM, BSL>>, <<>> >>,                                \* Emacs character, escaped
+               << <<BSL>>, <<97>> >> >>                                \* after a stray backslash at top level
 
 VARIABLES s, c, e
 Init == s \in 1..Len(Seqs) /\ c \in 1..Len(Contexts) /\ e \in BOOLEAN
